@@ -108,6 +108,9 @@ def run(ctx, chk):
     layout_map_writers(ctx, chk, "B12.9")
     # B12.4 what becomes a punchable hole at compact's own flush was never grown into: pending holes are occupied space
     pending_holes_occupied(ctx, chk, "B12.4")
+    # B12.10 = B05.10: the end-of-file placement looks at the last extent of every map
+    from props.c05 import len_takes_greatest
+    len_takes_greatest(ctx, chk, "B12.10")
     ph = O.body(PUNCH_HOLES)
     tail_sites = O.need_sites(ph, PUNCH, 1)
     # B12.3 KEEP_SIZE
